@@ -1391,6 +1391,34 @@ fn grid() {
             }
             println!("Q vec_dedup_key_raw_parts_sweep | {} | same", if bad == 0 { "same".to_string() } else { format!("{}_cases_differ", bad) });
         }
+        // C13: io::Write for Vec<u8>, called directly: every write takes the whole buffer and says so,
+        // whatever the spare capacity (std's Vec<u8> does; a short write would be legal for io::Write
+        // but is not what std's Vec does), and write_all / write! / flush agree with std
+        {
+            use std::io::Write;
+            let mut bad = 0usize;
+            for cap in 0..7usize {
+                for pre in 0..=cap {
+                    for n in 0..9usize {
+                        let mut bv: BVec<u8> = BVec::with_capacity_in(cap, &bump);
+                        let mut sv: Vec<u8> = Vec::with_capacity(cap);
+                        for i in 0..pre { bv.push(i as u8); sv.push(i as u8); }
+                        let buf: Vec<u8> = (0..n as u8).map(|x| 100 + x).collect();
+                        let rb = bv.write(&buf).ok();
+                        let rs = sv.write(&buf).ok();
+                        let rb2 = bv.write(&buf[..n / 2]).ok();
+                        let rs2 = sv.write(&buf[..n / 2]).ok();
+                        let wb = bv.write_all(&buf).is_ok() && write!(bv, "{}-{}", n, cap).is_ok() && bv.flush().is_ok();
+                        let ws = sv.write_all(&buf).is_ok() && write!(sv, "{}-{}", n, cap).is_ok() && sv.flush().is_ok();
+                        if rb != rs || rb2 != rs2 || wb != ws || bv[..] != sv[..] {
+                            bad += 1;
+                            if bad <= 2 { println!("Q vec_io_write cap={} len={} buf={} | wrote={:?},{:?} contents={:?} | wrote={:?},{:?} contents={:?}", cap, pre, n, rb, rb2, &bv[..], rs, rs2, &sv[..]); }
+                        }
+                    }
+                }
+            }
+            println!("Q vec_io_write_sweep | {} | same", if bad == 0 { "same".to_string() } else { format!("{}_cases_differ", bad) });
+        }
         // C13 / C15: drain_filter with a predicate that writes through its &mut T (adds to the value, or
         // replaces it, dropping the old one): the kept elements carry the modification, the removed ones
         // are yielded with it, and every value — old and new — is dropped exactly once. All removal masks.
